@@ -15,6 +15,17 @@ in one chunk):
 * 'word'  (engine T)  one non-zero word over {-1,0,2}: detrending (exact-rational least squares
           reference), add_constant / add_series / add_signal (+ rejections), running average
           (exact-rational window means), every configuration inside.
+* 'len'   (engine T)  one (order, Gibbs option) with every cut-off pair x every record length of LEN_MENU (odd, even,
+          powers of two +-1, from the shortest length filtfilt accepts): length and time step preserved, additivity and
+          homogeneity (records scaled by 2^-30 and 2^20), integer-typed / list records vs their float64 twin, and an
+          object with a history vs a fresh one.
+
+Round 3 (general lessons): 'lin' also runs on an odd length; short words are also processed in narrow / unsigned integer,
+float32, list and tuple containers and at the scales 2^-30, 2^20 and on a common level of 2^20 (references: exact rationals
+of the values actually passed); the added series / signals are one object per sequence of calls and snapshot-checked;
+add_signal must reject a menu of close and coarse mismatched time steps (1e-7 relative ... a factor of six; both orders)
+and accept an equal step written as numpy.float64; objects that held another record before (processed, lazy properties
+read, auxiliary statistics generated, then reset_values) must behave like fresh ones; A-B-A call patterns.
 """
 import math
 from fractions import Fraction
@@ -23,7 +34,7 @@ import numpy as np
 
 from ..target import eqsig, generic, eq_exceptions
 from ..result import Res
-from ..compare import words, bits_equal
+from ..compare import words, bits_equal, snapshot
 
 SIGMA = (-1, 0, 2)
 N_LONG = 4096
@@ -39,6 +50,35 @@ DEGREES = (0, 1, 2, 3, 4)
 WORD_DT = 0.1
 ADD_CONSTANTS = (1.5, -2, 0)
 COMBO = (1, -2, 3, -4, 5)
+
+# ---- length sweep (kind 'len'): "preserves length and time step, is linear" for record lengths around powers of two, odd and
+#      even, from the shortest record scipy's filtfilt accepts for the order-4 band-pass (28 samples) upwards
+LEN_MENU = (28, 29, 31, 32, 33, 63, 64, 65, 100, 101, 127, 128, 129, 255, 256, 257, 1000, 1001, 1023, 1024, 1025)
+N_ODD = 29                 # odd record length of the linearity block
+ODD_SECOND = (0, 14, 28)   # positions of the second impulse in the odd-length block (first impulse: every position)
+P30 = Fraction(1, 2 ** 30)
+P20 = 2 ** 20
+# record containers of the sweep: the same integer samples as float64 / int64 / python list / int16 with large steps
+# (x*1000) / uint8 ((x+20)*6).  RESTRICTED: the narrow types int16 / uint8 only with a Gibbs option - without padding
+# butter_pass hands the narrow array to scipy's filtfilt, whose odd extension 2*x[0]-x[1:] is evaluated in that type and wraps
+# around: the unchanged tree returns a wrong record (reported); float32 records are answered to ~1e-8 only and are not examined.
+LEN_CONTAINERS = ('i64', 'list', 'i16 (x*1000)', 'u8 ((x+20)*6)')
+# ---- words: containers / dtypes / scalings (actual samples w*mult+offset, exactly representable; references are exact
+#      rationals of the values passed; 2^-30 ~ 1e-9 and 2^20 ~ 1e6 are the scale-free sub-families, w+2^20 rides on a large level)
+WORD_VARIANTS = (
+    ('i16 (w*10000)', 10000, 0, np.int16),
+    ('u8 (w*50+50)', 50, 50, np.uint8),
+    ('f32', 1, 0, np.float32),
+    ('list', 1, 0, list),
+    ('tuple', 1, 0, tuple),
+    ('f64 (w*2^-30)', P30, 0, float),
+    ('f64 (w*2^20)', P20, 0, float),
+    ('f64 (w+2^20)', 1, P20, float),
+)
+VARIANT_MAX_LEN = 4        # container / scale / history / dt-menu handling is not a pattern question: words up to this length
+# ---- time steps that differ (add_signal must reject), from one part in 1e7 to a factor of six, fine and coarse sampling
+DT_PAIRS = ((0.1, 0.10000001), (0.1, 0.1000001), (1.0, 1.0000001), (0.01, 0.01004), (0.005, 0.00501), (0.5, 0.4),
+            (0.4, 0.45), (0.25, 0.26), (2.0, 5.0), (10.0, 60.0))
 
 GAIN_TOL = 1e-6            # unit-amplitude input, absolute
 GAIN_TOL_NARROW = 1e-3     # band-pass with f2/f1 <= 4 at orders 3-4 (transfer-function form ill-conditioned)
@@ -62,9 +102,11 @@ def build(tier, seed):
     for s in settings():
         heavy.append(dict(s, kind='gain'))
         heavy.append(dict(s, kind='lin'))
+    lens = [{'kind': 'len', 'order': order, 'gibbs': gibbs} for order in ORDERS for gibbs in GIBBS]
     # deterministic interleave (order inside each kind is canonical, simplest first)
     keyed = [((i + 0.5) / len(wcases), 0, i, c) for i, c in enumerate(wcases)]
     keyed += [((j + 0.5) / len(heavy), 1, j, c) for j, c in enumerate(heavy)]
+    keyed += [((j + 0.5) / len(lens), 2, j, c) for j, c in enumerate(lens)]
     keyed.sort(key=lambda t: t[:3])
     cases = [t[3] for t in keyed]
     return {
@@ -77,12 +119,23 @@ def build(tier, seed):
                 "impulses and all 1600 ordered pairs e_i+2e_j; kind 'word': all non-zero words over {-1,0,2} of length 2..%d "
                 "x (degree 0..4 with k<=L-2 x {object, array fn} x {direct, idempotence, k+2 added polynomials}; "
                 "add_constant/add_series/add_signal x {Signal, AccSignal} x {float, int} + 8 rejections; widths 1..25 x "
-                "{float, int}).  non-trivial = non-zero word, or (setting, sinusoid) with analytic gain in (1e-3, 1-1e-3), "
-                "or impulse pair with i != j"
-                % ([list(c) for c in CUTS], list(ORDERS), list(GIBBS), list(BINS), list(PHASES), N_LONG, DT, N_SHORT, L),
+                "{float, int}); lin also on the odd length N=%d: all impulses x second impulse at %s; kind 'len': order x "
+                "remove_gibbs (one pool case each) x cut-offs x record lengths %s x {F(x), F(y), F(x+2y), F(2^-30 x), F(2^20 x), "
+                "x as %s vs the same samples as float64, F on an AccSignal that held and filtered another record}: length and "
+                "dt preserved, additivity, homogeneity; words of length <= %d also as %s (detrend object/array, add_*, running "
+                "average), with add_series(tuple / int64 / int8 ndarray), equal dt given as numpy.float64, the mismatched "
+                "time-step pairs %s in both orders, objects with a history (another record of a different length processed "
+                "and read, then reset_values) and A-B-A call patterns.  non-trivial = non-zero word, or (setting, sinusoid) "
+                "with analytic gain in (1e-3, 1-1e-3), or impulse pair with i != j, or (setting, length) of the sweep"
+                % ([list(c) for c in CUTS], list(ORDERS), list(GIBBS), list(BINS), list(PHASES), N_LONG, DT, N_SHORT, L,
+                   N_ODD, list(ODD_SECOND), list(LEN_MENU), list(LEN_CONTAINERS), VARIANT_MAX_LEN,
+                   [v[0] for v in WORD_VARIANTS], [list(d) for d in DT_PAIRS]),
         'bounds': {'alphabet': SIGMA, 'max_len': L, 'cut_offs': [list(c) for c in CUTS], 'orders': ORDERS,
                    'remove_gibbs': GIBBS, 'bins': BINS, 'phases': PHASES, 'N': N_LONG, 'dt': DT,
-                   'N_linearity': N_SHORT, 'widths': [1, 25], 'degrees': DEGREES,
+                   'N_linearity': [N_SHORT, N_ODD], 'odd_block_second_impulse': ODD_SECOND, 'length_sweep': LEN_MENU,
+                   'length_sweep_containers': LEN_CONTAINERS, 'word_variants': [v[0] for v in WORD_VARIANTS],
+                   'word_variant_max_len': VARIANT_MAX_LEN, 'mismatched_dt_pairs': DT_PAIRS,
+                   'widths': [1, 25], 'degrees': DEGREES,
                    'gain_tol': {'general': GAIN_TOL, 'narrow-band orders 3-4': GAIN_TOL_NARROW},
                    'linearity_tol': 'relative to peak: 1e-10; band-pass f2/f1>4: 1e-9 (order 3), 1e-7 (order 4); narrow '
                                     'band-pass: 1e-9 (order 2), 1e-6 (order 3), 1e-3 (order 4) - about 100x the rounding noise '
@@ -92,7 +145,13 @@ def build(tier, seed):
                              'cutoff-tuple', 'cutoff-list', 'cutoff-ndarray',
                              'gain-pass', 'gain-transition', 'gain-stop', 'tol-narrow-band', 'default-order',
                              'default-order-after-other-order', 'default-all', 'history-pair',
-                             'lin-pair', 'lin-response-nonzero',
+                             'lin-pair', 'lin-response-nonzero', 'lin-length-even', 'lin-length-odd',
+                             'len-odd', 'len-even', 'len-power-of-two', 'len-next-to-power-of-two', 'len-additivity',
+                             'len-homogeneity', 'len-container-i64', 'len-container-list', 'len-container-i16',
+                             'len-container-u8', 'len-history',
+                             'detrend-variant', 'add-variant', 'runavg-variant', 'add-series-tuple', 'add-series-int',
+                             'reject-dt-close', 'reject-dt-coarse', 'reject-dt-menu', 'aba-detrend', 'history-detrend',
+                             'history-add', 'history-runavg',
                              'detrend-deg-0', 'detrend-deg-1', 'detrend-deg-2', 'detrend-deg-3', 'detrend-deg-4',
                              'detrend-object', 'detrend-array', 'detrend-changed', 'detrend-residual-nonzero',
                              'add-constant', 'add-series-ndarray', 'add-series-list', 'add-signal', 'add-chain',
@@ -106,7 +165,17 @@ def build(tier, seed):
                         'detrend reference: exact rational least squares (normal equations in fractions.Fraction on the '
                         'integer grid; the best fit is invariant under the affine map to linspace(0,1))',
                         'running-average reference: exact rational window means with the window clipped at the record ends',
-                        'sample values outside {-1,0,2} and word lengths above the bound are not examined']}
+                        'sample values outside {-1,0,2} and word lengths above the bound are not examined',
+                        'length sweep: two fixed integer-valued records per length; lengths below 28 (the shortest record '
+                        "scipy's filtfilt accepts for the order-4 band-pass without padding) are not examined",
+                        'RESTRICTED: int16 / uint8 records are filtered only with a Gibbs option (without padding scipy\'s '
+                        'filtfilt evaluates its odd extension in the narrow type and the unchanged tree returns a wrong record: '
+                        'reported); float32 records are not examined (answered to ~1e-8)',
+                        'transformed word variants: samples w*mult+offset exactly representable in the stated type, references '
+                        'exact rationals of the values passed, tolerances relative to their peak; a negative python int is not '
+                        'added to the unsigned record and integer series are not added to it (the sums do not fit its type)',
+                        'a mutator leaves the containers it was given (record, cut-offs, added series / signal) unchanged; an '
+                        'object\'s earlier record, cached spectra and statistics do not influence later operations']}
 
 
 # ---------------------------------------------------------------------------------------------
@@ -351,10 +420,18 @@ def run_gain(c):
 def run_lin(c):
     r = Res()
     _CUT.clear()
-    cut, order = c['cut'], c['order']
-    n = N_SHORT
-    base = {'cut': cut, 'container': c['container'], 'order': order, 'gibbs': c['gibbs'], 'N': n}
     _setting_classes(r, c)
+    # even length: every ordered pair of impulses; odd length: every first impulse x second impulse at the first, middle, last sample
+    for n, seconds in ((N_SHORT, tuple(range(N_SHORT))), (N_ODD, ODD_SECOND)):
+        r.cls('lin-length-even' if n % 2 == 0 else 'lin-length-odd')
+        if not _lin_block(r, c, n, seconds):
+            break
+    return r
+
+
+def _lin_block(r, c, n, seconds):
+    cut, order = c['cut'], c['order']
+    base = {'cut': cut, 'container': c['container'], 'order': order, 'gibbs': c['gibbs'], 'N': n}
     tol = lin_tol(cut, order)
     H = []
     for i in range(n):
@@ -365,7 +442,7 @@ def run_lin(c):
         ok, s = r.call('filter.cutoff-container' if i == 0 else 'filter.linearity', base if i == 0 else sub, _filter, e, DT, c)
         if not ok:
             if i == 0:
-                return r
+                return False
             H.append(None)
             continue
         _cut_unchanged(r, base)
@@ -377,7 +454,7 @@ def run_lin(c):
         except Exception:
             pass
     for i in range(n):
-        for j in range(n):
+        for j in seconds:
             if H[i] is None or H[j] is None:
                 continue
             x = np.zeros(n)
@@ -397,14 +474,149 @@ def run_lin(c):
             except Exception:
                 r.fail('filter.linearity', sub, 'impulse responses cannot be combined', observed=(H[i], H[j]))
                 continue
+            _shape_ok(r, sub, s, n, DT)
             r.expect_close('filter.linearity', sub, s.values, want, rtol=tol, atol=1e-300,
                            what='bp(e_i+2e_j) vs bp(e_i)+2bp(e_j)')
+    return True
+
+
+# ---------------------------------------------------------------------------------------------
+# length sweep
+# ---------------------------------------------------------------------------------------------
+def sweep_records(n):
+    """two fixed integer-valued records of length n (|x| <= 20, |y| <= 8)"""
+    x = [((7 * i * i + 3 * i) % 41) - 20 for i in range(n)]
+    y = [((13 * i) % 17) - 8 for i in range(n)]
+    return x, y
+
+
+def _history_signal(cls, other, values, dt, op):
+    """An object with a history: it held ANOTHER record of a different length, had `op` applied and its lazily computed
+    properties read (and, for AccSignal, the auxiliary statistics generated), and was then given this record through
+    reset_values.  Building the history is not what is examined: failures in it are ignored."""
+    s = cls(np.array(other, dtype=float), dt)
+    with np.errstate(all='ignore'):
+        for step in (lambda: op(s), lambda: s.fa_spectrum, lambda: s.fa_freqs, lambda: s.smooth_fa_spectrum,
+                     lambda: s.velocity, lambda: s.displacement, lambda: s.pga, lambda: s.pgv,
+                     lambda: s.generate_cumulative_stats(), lambda: s.generate_duration_stats()):
+            try:
+                step()
+            except Exception:
+                pass
+    s.reset_values(np.array(values, dtype=float))
+    return s
+
+
+def run_len(c):
+    """One (order, Gibbs option): every length of LEN_MENU x every cut-off pair.  Per (length, cut-offs), all on fresh Signals
+    except the last:  F(x), F(y), F(x+2y) [additivity], F(2^-30 x), F(2^20 x) [homogeneity: the filter is linear, so it is
+    scale-free], F(x given as int64 / list / int16 / uint8) vs F(the same samples as float64), F on an object with a
+    history vs F(x); every output keeps the length and the time step."""
+    r = Res()
+    _CUT.clear()
+    order, gibbs = c['order'], c['gibbs']
+    r.cls('order-%d' % order)
+    r.cls('gibbs-%s' % gibbs)
+    for cut in CUTS:
+        cc = {'cut': list(cut), 'container': 'tuple', 'order': order, 'gibbs': gibbs}
+        tol = lin_tol(cut, order)
+        for n in LEN_MENU:
+            base = dict(cc, N=n)
+            xi, yi = sweep_records(n)
+            x = np.array(xi, dtype=float)
+            y = np.array(yi, dtype=float)
+            r.nontrivial += 1
+            r.cls('len-odd' if n % 2 else 'len-even')
+            if n & (n - 1) == 0:
+                r.cls('len-power-of-two')
+            elif (n + 1) & n == 0 or (n - 1) & (n - 2) == 0:
+                r.cls('len-next-to-power-of-two')
+
+            def F(vals, what, claim='filter.length-dt'):
+                sub = dict(base, record=what)
+                r.states += 1
+                ok, sg = r.call(claim, sub, _filter, vals, DT, cc)
+                if not ok:
+                    return None
+                _cut_unchanged(r, cc)
+                if not _shape_ok(r, sub, sg, n, DT):
+                    return None
+                return np.array(sg.values, dtype=float)
+            fx = F(x, 'x')
+            fy = F(y, 'y')
+            if fx is None or fy is None:
+                continue
+            pk = float(np.max(np.abs(fx))) or 1.0
+            r.transitions += 1
+            r.cls('len-additivity')
+            fxy = F(x + 2.0 * y, 'x+2y', 'filter.linearity')
+            if fxy is not None:
+                r.expect_close('filter.linearity', dict(base, record='x+2y'), fxy, fx + 2.0 * fy, rtol=tol, atol=1e-300,
+                               what='F(x+2y) vs F(x)+2F(y)')
+            for tag, m in (('x*2^-30', float(P30)), ('x*2^20', float(P20))):
+                r.transitions += 1
+                r.cls('len-homogeneity')
+                fs = F(x * m, tag, 'filter.linearity')
+                if fs is not None:
+                    r.expect_close('filter.linearity', dict(base, record=tag), fs, fx * m, rtol=max(tol, 1e-12), atol=0.0,
+                                   scale=pk * m, what='F(m x) vs m F(x)')
+            for cont in LEN_CONTAINERS:
+                if cont[:2] in ('u8', 'i1') and gibbs is None:
+                    r.disabled['len: narrow integer record without Gibbs padding (restricted, see LEN_CONTAINERS)'] += 1
+                    continue
+                if cont == 'i64':
+                    arr = np.array(xi, dtype=np.int64)
+                elif cont == 'list':
+                    arr = list(xi)
+                elif cont.startswith('i16'):
+                    arr = np.array([1000 * v for v in xi], dtype=np.int16)
+                else:
+                    arr = np.array([(v + 20) * 6 for v in xi], dtype=np.uint8)
+                ref = fx if cont in ('i64', 'list') else F(np.array(arr, dtype=float), cont + ' as float64')
+                r.transitions += 1
+                r.cls('len-container-' + cont.split(' ')[0])
+                got = F(arr, cont, 'filter.record-container')
+                if got is not None and ref is not None:
+                    r.expect_close('filter.record-container', dict(base, record=cont), got, ref, rtol=1e-12, atol=0.0,
+                                   what='F(record given as %s) vs F(the same samples as float64)' % cont)
+            # object with a history (another record, 3 samples longer, filtered with the same setting, properties read)
+            sub = dict(base, record='x', history='other-record-filtered-and-read')
+            r.states += 1
+            r.transitions += 1
+            r.cls('len-history')
+            other = yi + [1, -2, 3]
+
+            def hist():
+                sg = _history_signal(eqsig.AccSignal, other, x, DT,
+                                     lambda o: o.butter_pass(_CUT.get('obj', tuple(cut)), filter_order=order, remove_gibbs=gibbs))
+                sg.butter_pass(_CUT.get('obj', tuple(cut)), filter_order=order, remove_gibbs=gibbs)
+                return sg
+            ok, sg = r.call('filter.history-independent', sub, hist)
+            if ok and _shape_ok(r, sub, sg, n, DT):
+                r.expect_close('filter.history-independent', sub, sg.values, fx, rtol=1e-12, atol=0.0,
+                               what='F on an object that held and filtered another record before vs F on a fresh object')
     return r
 
 
 # ---------------------------------------------------------------------------------------------
 # word cases
 # ---------------------------------------------------------------------------------------------
+def affine(v, mult, off):
+    return Fraction(v) * Fraction(mult) + Fraction(off)
+
+
+def build_arr(vals_fr, typ):
+    """container of the exact rationals vals_fr (all exactly representable in the requested type)"""
+    if typ in (list, tuple):
+        return typ(int(v) for v in vals_fr)
+    if typ in (float, np.float32):
+        a = np.array([float(v) for v in vals_fr], dtype=typ)
+    else:
+        a = np.array([int(v) for v in vals_fr], dtype=typ)
+    assert all(Fraction(float(x)) == v for x, v in zip(a.tolist(), vals_fr)), 'sample not representable'
+    return a
+
+
 def _detrend_entry(entry, arr, k):
     if entry.startswith('object'):
         s = eqsig.Signal(arr, WORD_DT)
@@ -413,34 +625,48 @@ def _detrend_entry(entry, arr, k):
     return generic.remove_poly(arr, k)
 
 
-def check_detrend(r, w):
+def check_detrend(r, w, tag=None, mult=1, off=0, typ=float):
+    """tag None: the historical float64 / int64 records; otherwise one container / scaling variant of the word (sub gets 'values')."""
     n = len(w)
-    peak = float(max(abs(v) for v in w))
-    yf = [Fraction(v) for v in w]
-    a = np.array(w, dtype=float)
+    yf = [affine(v, mult, off) for v in w]
+    unit = float(mult)
+    peak = float(max(abs(v) for v in yf))
+    a = np.array([float(v) for v in yf], dtype=float)
     xg = np.arange(n) / float(n - 1)
+    plain = tag is None
+    exact_tol = 1e-8 * peak if plain else 1e-9 * peak
     for k in DEGREES:
         if k > n - 2:
             continue
         fit = best_fit(yf, k)
         want = fl([y - p for y, p in zip(yf, fit)])
-        r.cls('detrend-deg-%d' % k)
-        if any(p != 0 for p in fit):
-            r.cls('detrend-changed')
-        if any(y != p for y, p in zip(yf, fit)):
-            r.cls('detrend-residual-nonzero')
-        for entry in ('object', 'array', 'object-int', 'array-int'):
+        if plain:
+            r.cls('detrend-deg-%d' % k)
+            if any(p != 0 for p in fit):
+                r.cls('detrend-changed')
+            if any(y != p for y, p in zip(yf, fit)):
+                r.cls('detrend-residual-nonzero')
+        for entry in (('object', 'array', 'object-int', 'array-int') if plain else ('object', 'array')):
             sub = {'w': w, 'k': k, 'entry': entry}
+            if not plain:
+                sub['values'] = tag
             r.states += 1
-            arr = np.array(w, dtype=np.int64) if entry.endswith('int') else a.copy()
+            if plain:
+                arr = np.array(w, dtype=np.int64) if entry.endswith('int') else a.copy()
+            else:
+                arr = build_arr(yf, typ)
+            snap = snapshot(arr)
             ok, res = r.call('detrend.exact', sub, _detrend_entry, entry, arr, k)
+            r.expect('detrend.argument-unchanged', sub, snapshot(arr) == snap, "the caller's record container was modified",
+                     observed=arr, expected=[float(v) for v in yf])
             if not ok:
                 continue
-            r.cls('detrend-object' if entry.startswith('object') else 'detrend-array')
+            if plain:
+                r.cls('detrend-object' if entry.startswith('object') else 'detrend-array')
             # the property determines the result uniquely: record minus its exact best-fit polynomial
-            r.expect_close('detrend.exact', sub, res, want, rtol=0.0, atol=1e-8 * peak,
+            r.expect_close('detrend.exact', sub, res, want, rtol=0.0, atol=exact_tol,
                            what='result vs record minus exact rational best-fit polynomial')
-            if entry.endswith('int'):
+            if entry.endswith('int') or typ is not float:
                 continue
             rf = as_fracs(res)
             if rf is None or len(rf) != n:
@@ -453,17 +679,27 @@ def check_detrend(r, w):
             r.expect_close('detrend.subtracted-polynomial', sub, fl(d), np.zeros(len(d)), rtol=0.0, atol=1e-7 * peak,
                            what='finite differences of order %d of (record - result)' % (k + 1))
             # (2) best-fit degree-k polynomial of the residual is zero (own exact least squares on the float result)
-            r.expect_close('detrend.residual-fit-zero', sub, fl(best_fit(rf, k)), np.zeros(n), rtol=0.0, atol=1e-8 * peak,
+            r.expect_close('detrend.residual-fit-zero', sub, fl(best_fit(rf, k)), np.zeros(n), rtol=0.0, atol=exact_tol,
                            what='exact best-fit degree-%d polynomial of the result' % k)
-            # (3) idempotent
+            # (3) idempotent (the array-level result is overwritten in place after a private copy was taken: it must not
+            #     be a view of anything the function keeps or was given)
             r.transitions += 1
+            keep = np.array(res, dtype=float)
+            if entry == 'array':
+                try:
+                    res[...] = 77.0
+                except Exception:
+                    pass
+                r.expect('detrend.argument-unchanged', sub, snapshot(arr) == snap,
+                         'overwriting the returned array changed the record that was passed in', observed=arr)
+            res = keep
             ok, res2 = r.call('detrend.idempotent', sub, _detrend_entry, entry, np.array(res, dtype=float), k)
             if ok:
-                r.expect_close('detrend.idempotent', sub, res2, res, rtol=0.0, atol=1e-8 * peak,
+                r.expect_close('detrend.idempotent', sub, res2, res, rtol=0.0, atol=exact_tol,
                                what='second application vs first')
             # (4) adding a polynomial of degree <= k beforehand changes nothing
-            polys = [('3x^%d' % j, 3.0 * xg ** j) for j in range(k + 1)]
-            polys.append(('combo', sum(COMBO[j] * xg ** j for j in range(k + 1))))
+            polys = [('3x^%d' % j, 3.0 * unit * xg ** j) for j in range(k + 1)]
+            polys.append(('combo', sum(COMBO[j] * unit * xg ** j for j in range(k + 1))))
             for name, q in polys:
                 s2 = dict(sub, added=name)
                 r.states += 1
@@ -474,6 +710,35 @@ def check_detrend(r, w):
                     r.expect_close('detrend.poly-invariance', s2, res3, res, rtol=0.0,
                                    atol=1e-7 * float(np.max(np.abs(y2))) + 1e-7 * peak,
                                    what='detrend(record + polynomial) vs detrend(record)')
+            if plain and n <= VARIANT_MAX_LEN:
+                # (e) A-B-A: the same call before and after a call on another record of the same length with the same first
+                #     and last sample
+                if n >= 3:
+                    wb = a.copy()
+                    wb[n // 2] += 1.0
+                    r.transitions += 2
+                    r.cls('aba-detrend')
+                    r.call('detrend.repeatable', dict(sub, between=wb), _detrend_entry, entry, wb, k)
+                    ok, res4 = r.call('detrend.repeatable', dict(sub, between=wb), _detrend_entry, entry, a.copy(), k)
+                    if ok:
+                        r.expect('detrend.repeatable', dict(sub, between=wb), bits_equal(np.asarray(res4), keep),
+                                 'the same call gives a different result after a call on another record', observed=res4,
+                                 expected=keep)
+                # (c) object with a history
+                if entry == 'object':
+                    for host in ('Signal', 'AccSignal'):
+                        s2 = dict(sub, host=host, history='other-record-detrended-and-read')
+                        r.states += 1
+                        r.cls('history-detrend')
+
+                        def hist():
+                            sg = _history_signal(getattr(eqsig, host), list(w) + [1, -1], a, WORD_DT, lambda o: o.remove_poly(k))
+                            sg.remove_poly(k)
+                            return sg.values
+                        ok, res5 = r.call('detrend.history-independent', s2, hist)
+                        if ok:
+                            r.expect_close('detrend.history-independent', s2, res5, want, rtol=0.0, atol=exact_tol,
+                                           what='remove_poly on an object that held another record before')
 
 
 def _series(n):
@@ -482,17 +747,27 @@ def _series(n):
 
 def check_add(r, w):
     n = len(w)
-    yf = [Fraction(v) for v in w]
-    sf = _series(n)
-    sfl = [float(v) for v in sf]
-    peak = float(max(abs(v) for v in w)) + float(max(abs(v) for v in sf)) + 2.0
+    sf0 = _series(n)
     SPE = eq_exceptions.SignalProcessingError
+    variants = [('float', 1, 0, float), ('int', 1, 0, np.int64)]
+    if n <= VARIANT_MAX_LEN:
+        variants += [v for v in WORD_VARIANTS]
     for host in ('Signal', 'AccSignal'):
         cls = getattr(eqsig, host)
-        for dtype in ('float', 'int'):
+        for dtype, mult, off, typ in variants:
+            plain = dtype in ('float', 'int')
+            unit = Fraction(mult)
+            yf = [affine(v, mult, off) for v in w]
+            # series and constants follow the multiplier of the variant (so that every term matters at every scale)
+            sf = [v * unit for v in sf0] if typ is float else sf0
+            sfl = [float(v) for v in sf]
+            peak = float(max(abs(v) for v in yf)) + float(max(abs(v) for v in sf)) + 2.0 * float(unit if typ is float else 1)
+
             def mk():
-                return cls(np.array(w, dtype=float if dtype == 'float' else np.int64), WORD_DT)
+                return cls(build_arr(yf, typ), WORD_DT)
             base = {'w': w, 'host': host, 'dtype': dtype}
+            if not plain:
+                r.cls('add-variant')
 
             def run(op, fn, want, claim):
                 sub = dict(base, op=op)
@@ -503,17 +778,52 @@ def check_add(r, w):
                     r.expect_close(claim, sub, s.values, fl(want), rtol=0.0, atol=1e-12 * peak, what='element-wise sum')
                     r.expect(claim, sub, s.dt == WORD_DT and s.npts == n, 'dt / npts changed', observed=(s.dt, s.npts))
 
-            for cst in ADD_CONSTANTS:
+            for cst0 in ADD_CONSTANTS:
+                if typ is np.uint8 and isinstance(cst0, int) and cst0 < 0:
+                    continue        # a negative python int does not fit the unsigned type (numpy refuses the sum)
+                cst = float(cst0 * unit) if typ is float and not plain else cst0
                 r.cls('add-constant')
                 run('add_constant(%r)' % (cst,), lambda s: s.add_constant(cst), [y + Fraction(cst) for y in yf], 'add.constant')
+            # the added series / signal: ONE object per variant, handed to every call that needs it and snapshot-checked
+            ser_nd = np.array(sfl)
+            ser_list = list(sfl)
+            ser_tuple = tuple(sfl)
+            sig_other = {o: getattr(eqsig, o)(np.array(sfl), WORD_DT) for o in ('Signal', 'AccSignal')}
+            snaps = [(x, snapshot(x)) for x in (ser_nd, ser_list, ser_tuple)]
             r.cls('add-series-ndarray')
-            run('add_series(ndarray)', lambda s: s.add_series(np.array(sfl)), [y + v for y, v in zip(yf, sf)], 'add.series')
+            run('add_series(ndarray)', lambda s: s.add_series(ser_nd), [y + v for y, v in zip(yf, sf)], 'add.series')
             r.cls('add-series-list')
-            run('add_series(list)', lambda s: s.add_series(list(sfl)), [y + v for y, v in zip(yf, sf)], 'add.series')
+            run('add_series(list)', lambda s: s.add_series(ser_list), [y + v for y, v in zip(yf, sf)], 'add.series')
+            small = n <= VARIANT_MAX_LEN
+            if small:
+                r.cls('add-series-tuple')
+                run('add_series(tuple)', lambda s: s.add_series(ser_tuple), [y + v for y, v in zip(yf, sf)], 'add.series')
+            # integer-typed series (whole numbers): int64 and a narrow type.  Not onto the unsigned record: record + negative
+            # integers does not fit its type (numpy semantics), it only gets the float series
+            si = [Fraction((-1) ** i * (i + 1)) for i in range(n)]
+            if small and (plain or typ is not float) and typ is not np.uint8:
+                for nm, st in (('int64', np.int64), ('int8', np.int8)):
+                    r.cls('add-series-int')
+                    ser_i = np.array([int(v) for v in si], dtype=st)
+                    snaps.append((ser_i, snapshot(ser_i)))
+                    run('add_series(ndarray %s)' % nm, lambda s: s.add_series(ser_i), [y + v for y, v in zip(yf, si)],
+                        'add.series')
             for other in ('Signal', 'AccSignal'):
                 r.cls('add-signal')
-                run('add_signal(%s)' % other, lambda s: s.add_signal(getattr(eqsig, other)(np.array(sfl), WORD_DT)),
+                run('add_signal(%s)' % other, lambda s: s.add_signal(sig_other[other]),
                     [y + v for y, v in zip(yf, sf)], 'add.signal')
+                # equal time steps written differently are equal
+                if plain and small:
+                    run('add_signal(%s, dt as numpy.float64)' % other,
+                        lambda s: s.add_signal(getattr(eqsig, other)(np.array(sfl), np.float64(WORD_DT))),
+                        [y + v for y, v in zip(yf, sf)], 'add.signal')
+            for x, sn in snaps:
+                r.expect('add.argument-unchanged', dict(base, argument=type(x).__name__), snapshot(x) == sn,
+                         'the series that was added was modified', observed=x)
+            for o, so in sig_other.items():
+                r.expect('add.argument-unchanged', dict(base, argument=o),
+                         bits_equal(np.asarray(so.values), np.array(sfl)) and so.dt == WORD_DT and so.npts == n,
+                         'the signal that was added was modified', observed=so.values, expected=sfl)
 
             def chain(s):
                 s.add_constant(1.5)
@@ -523,6 +833,25 @@ def check_add(r, w):
             r.transitions += 3
             run('add_constant(1.5);add_series(list);add_signal(Signal)', chain,
                 [y + Fraction(3, 2) + 2 * v for y, v in zip(yf, sf)], 'add.chain')
+            if not plain:
+                continue
+
+            if n <= VARIANT_MAX_LEN:
+                # (c) object with a history: held another record (one sample longer), added to and read, then reset
+                def hchain(_):
+                    sg = _history_signal(cls, list(w) + [2], build_arr(yf, float if dtype == 'float' else np.int64), WORD_DT,
+                                         lambda o: (o.add_constant(1.5), o.add_series([1.0] * (n + 1))))
+                    chain(sg)
+                    return sg
+                sub = dict(base, op='chain', history='other-record-added-to-and-read')
+                r.states += 1
+                r.cls('history-add')
+                ok, sg = r.call('add.history-independent', sub, hchain, None)
+                if ok:
+                    r.expect_close('add.history-independent', sub, sg.values,
+                                   fl([y + Fraction(3, 2) + 2 * v for y, v in zip(yf, sf)]), rtol=0.0, atol=1e-12 * peak)
+                    r.expect('add.history-independent', sub, sg.npts == n and sg.dt == WORD_DT, 'npts / dt wrong',
+                             observed=(sg.npts, sg.dt))
 
             long_ = sfl + [1.0]
             short_ = sfl[:-1]
@@ -536,12 +865,23 @@ def check_add(r, w):
                 ('reject-non-signal', 'add_signal(list)', lambda s: s.add_signal(list(sfl))),
                 ('reject-non-signal', 'add_signal(None)', lambda s: s.add_signal(None)),
             ]
-            for kcls, op, fn in rejections:
+            mks = [mk] * len(rejections)
+            if n <= VARIANT_MAX_LEN:
+                # time steps that differ by one part in 1e7 ... a factor of six, at fine and coarse sampling, either one being
+                # the receiving signal's: all mismatched
+                for d1, d2 in DT_PAIRS:
+                    for da, db in ((d1, d2), (d2, d1)):
+                        rejections.append(('reject-dt', 'signal dt=%r .add_signal(Signal same len, dt=%r)' % (da, db),
+                                           lambda s, db=db: s.add_signal(eqsig.Signal(np.array(sfl), db))))
+                        mks.append(lambda da=da: cls(build_arr(yf, typ), da))
+                        r.cls('reject-dt-close' if abs(da - db) <= 2e-6 * da else 'reject-dt-coarse' if min(da, db) >= 0.25
+                              else 'reject-dt-menu')
+            for (kcls, op, fn), mk1 in zip(rejections, mks):
                 sub = dict(base, op=op)
                 r.states += 1
                 r.evals += 1
                 r.cls(kcls)
-                s = mk()
+                s = mk1()
                 before = np.array(s.values, copy=True)
                 try:
                     fn(s)
@@ -555,34 +895,77 @@ def check_add(r, w):
 
 def check_running_average(r, w):
     n = len(w)
-    peak = float(max(abs(v) for v in w))
-    for dtype in ('float', 'int'):
+    variants = [('float', 1, 0, float), ('int', 1, 0, np.int64)]
+    if n <= VARIANT_MAX_LEN:
+        variants += [v for v in WORD_VARIANTS]
+    base_means = {}        # width -> exact window means of the integer word (the mean commutes with w -> w*mult+offset)
+    for width in WIDTHS:
+        h = width // 2
+        base_means[width] = [Fraction(sum(w[max(0, i - h):min(n - 1, i + h) + 1]), min(n - 1, i + h) - max(0, i - h) + 1)
+                             for i in range(n)]
+    for dtype, mult, off, typ in variants:
+        plain = dtype in ('float', 'int')
+        yf = [affine(v, mult, off) for v in w]
+        peak = float(max(abs(v) for v in yf))
+        arr0 = build_arr(yf, typ)
         for width in WIDTHS:
+            if not plain and width > 2 * n + 1:
+                break           # variants: from width 2n+1 on every window covers the whole record (same result as 2n+1)
             h = width // 2
             sub = {'w': w, 'width': width, 'dtype': dtype}
             r.states += 1
-            r.cls('runavg-' + dtype)
-            want = []
+            if plain:
+                r.cls('runavg-' + dtype)
+            else:
+                r.cls('runavg-variant')
+            want = base_means[width] if (mult == 1 and off == 0) else [m * Fraction(mult) + off for m in base_means[width]]
             for i in range(n):
-                lo = max(0, i - h)
-                hi = min(n - 1, i + h)
-                want.append(Fraction(sum(w[lo:hi + 1]), hi - lo + 1))
-                if i - h < 0:
-                    r.cls('runavg-clipped-left')
-                if i + h > n - 1:
-                    r.cls('runavg-clipped-right')
-                if i - h >= 0 and i + h <= n - 1:
-                    r.cls('runavg-unclipped')
-            if h >= n - 1:
-                r.cls('runavg-covers-all')
-            if any(x != Fraction(v) for x, v in zip(want, w)):
-                r.cls('runavg-changes-record')
-            s = eqsig.Signal(np.array(w, dtype=float if dtype == 'float' else np.int64), WORD_DT)
+                if plain:
+                    if i - h < 0:
+                        r.cls('runavg-clipped-left')
+                    if i + h > n - 1:
+                        r.cls('runavg-clipped-right')
+                    if i - h >= 0 and i + h <= n - 1:
+                        r.cls('runavg-unclipped')
+            if plain:
+                if h >= n - 1:
+                    r.cls('runavg-covers-all')
+                if any(x != v for x, v in zip(want, yf)):
+                    r.cls('runavg-changes-record')
+            s = eqsig.Signal(arr0, WORD_DT)          # the constructor copies; arr0 is checked after the loop
             ok, _ = r.call('running_average.window-mean', sub, s.running_average, width)
             if not ok:
                 continue
             r.expect_close('running_average.window-mean', sub, s.values, fl(want), rtol=0.0, atol=1e-12 * peak,
                            what='each sample vs mean of the ORIGINAL samples within %d positions' % h)
+            r.expect('running_average.window-mean', sub, s.npts == n and s.dt == WORD_DT, 'npts / dt changed',
+                     observed=(s.npts, s.dt))
+            if width == min(WIDTHS[-1], WIDTHS[-1] if plain else 2 * n + 1):
+                r.expect('running_average.argument-unchanged', {'w': w, 'dtype': dtype},
+                         snapshot(arr0) == snapshot(build_arr(yf, typ)), 'the container the signals were built from was modified',
+                         observed=arr0)
+            if dtype == 'float' and n <= VARIANT_MAX_LEN and width <= 5:
+                first = np.array(s.values, dtype=float)
+                # (c) object with a history (held a longer record, averaged and read) and, on the way, (e) A-B-A: the other
+                #     record is averaged between the two runs on this one
+                for host in ('Signal', 'AccSignal'):
+                    s2 = dict(sub, host=host, history='other-record-averaged-and-read')
+                    r.states += 1
+                    r.transitions += 1
+                    r.cls('history-runavg')
+
+                    def hist():
+                        sg = _history_signal(getattr(eqsig, host), list(w) + [2, -1], [float(v) for v in yf], WORD_DT,
+                                             lambda o: o.running_average(width))
+                        sg.running_average(width)
+                        return sg
+                    ok, sg = r.call('running_average.history-independent', s2, hist)
+                    if ok:
+                        r.expect_close('running_average.history-independent', s2, sg.values, fl(want), rtol=0.0,
+                                       atol=1e-12 * peak)
+                        if host == 'Signal':
+                            r.expect('running_average.history-independent', s2, bits_equal(np.asarray(sg.values), first),
+                                     'differs from the result on a fresh object', observed=sg.values, expected=first)
 
 
 def run_word(c):
@@ -590,6 +973,10 @@ def run_word(c):
     w = list(c['w'])
     r.nontrivial += 1
     check_detrend(r, w)
+    if len(w) <= VARIANT_MAX_LEN:
+        for tag, mult, off, typ in WORD_VARIANTS:
+            r.cls('detrend-variant')
+            check_detrend(r, w, tag, mult, off, typ)
     check_add(r, w)
     check_running_average(r, w)
     return r
@@ -600,18 +987,24 @@ def run_case(c):
         return run_gain(c)
     if c['kind'] == 'lin':
         return run_lin(c)
+    if c['kind'] == 'len':
+        return run_len(c)
     return run_word(c)
 
 
 def snippet(case, v):
     sub = v.get('sub') or {}
     head = "import numpy as np, eqsig\nfrom eqsig.fns import generic\nsub = %r\n" % (sub,)
-    if case.get('kind') in ('gain', 'lin'):
+    if case.get('kind') in ('gain', 'lin', 'len'):
         return head + (
             "cut = sub['cut']; cont = sub['container']\n"
             "cut = tuple(cut) if cont == 'tuple' else list(cut) if cont == 'list' else np.array(cut, float)\n"
             "N = sub['N']; dt = 0.01; t = np.arange(N) * dt\n"
             "if 'k' in sub: x = np.sin(2 * np.pi * sub['k'] / (N * dt) * t + sub['phase'])\n"
+            "elif 'record' in sub:   # length sweep: x_i = ((7i^2+3i) mod 41) - 20, y_i = (13i mod 17) - 8; see sub['record']\n"
+            "    i = np.arange(N); x = ((7 * i * i + 3 * i) % 41 - 20).astype(float); y = ((13 * i) % 17 - 8).astype(float)\n"
+            "    x = {'y': y, 'x+2y': x + 2 * y, 'x*2^-30': x * 2.0 ** -30, 'x*2^20': x * 2.0 ** 20, 'i64': x.astype(np.int64),\n"
+            "         'i16 (x*1000)': (1000 * x).astype(np.int16), 'u8 ((x+20)*6)': ((x + 20) * 6).astype(np.uint8)}.get(sub['record'], x)\n"
             "else: x = np.zeros(N); x[sub.get('i', 0)] += 1; x[sub.get('j', sub.get('i', 0))] += 2 * ('j' in sub)\n"
             "s = eqsig.Signal(x, dt)\n"
             "kw = {} if sub.get('order_arg') else {'filter_order': sub['order']}\n"
